@@ -52,6 +52,16 @@ structure Inv (r : Resp) (c : Conn) : Prop where
   stChunk : (c.st = .chunkedBodyUnready ∨ c.st = .chunkedBodyReady ∨ c.st = .chunkedBodySent ∨ c.st = .footersSending) →
           r.sendBody = true ∧ r.chunked = true
 
+/-- the close-path bookkeeping is invisible to the stream invariant -/
+theorem Inv.setBk {r : Resp} {c : Conn} (h : Inv r c) (b : Bk) : Inv r { c with bk := b } :=
+  ⟨h.nofault, fun hne => (h.core hne).congr rfl rfl rfl rfl rfl rfl, h.eqn, h.pfx, h.wbuf, h.stBody, h.stChunk⟩
+
+theorem idleClosed_inv {r : Resp} {c : Conn} (h : Inv r c) : Inv r (idleClosed c) := by
+  unfold idleClosed
+  split
+  · exact h.setBk _
+  · exact h
+
 theorem prefix_append_of_prefix {a w rest s : List α} (h : a ++ rest = s) (hw : w <+: rest) : a ++ w <+: s := by
   obtain ⟨t, ht⟩ := hw
   exact ⟨t, by rw [List.append_assoc, ht, h]⟩
